@@ -1,5 +1,6 @@
 import ReplicatProofs.Lemmas.RateLimit
 import ReplicatProofs.Lemmas.RateLimitMulti
+import ReplicatProofs.Lemmas.RateLimitStamps
 /-!
 # C20 — the bandwidth limit is respected and transparent to the data
 
@@ -159,6 +160,27 @@ theorem window_bound_at_underlying_partial (L : Rat) (hL : 0 < L) (eps : Rat) (d
   unfold burstPre
   have e1 : L * (b - a + (Gen.pauseThreshold + (dmax : Rat) / L) - -eps)
       = L * (b - a) + L * (Gen.pauseThreshold + eps) + L * ((dmax : Rat) / L) := by grind
+  grind
+
+/-- **Window bound at the underlying stream, `N` threads, no underlying latency**: every thread may have one request
+in flight (bytes moved, call waiting for the limiter's lock), hence `N · dmax` more than `window_bound_partial`. -/
+theorem window_bound_at_underlying_threads_partial (L : Rat) (hL : 0 < L) (eps : Rat) (dmax : Nat) (t0 : Rat) (evs : List Ev)
+    (N : Nat) (hev : ∀ e ∈ evs, EvOk L eps dmax e) (heps : 0 ≤ eps) (h0 : ∀ e ∈ evs, e.lat = 0)
+    (hN : ∀ e ∈ evs, e.stream < N) (a b : Rat) (hab : a ≤ b) :
+    winBytes (·.tPre) a b (run L (St.init t0) evs).2 ≤ L * (b - a) + burst L eps dmax + N * dmax := by
+  have hinv : RateLimit.Inv eps (St.init t0) := by
+    have := thr_nonneg; unfold RateLimit.Inv St.init; simp only; grind
+  have hg := (run_good L hL eps dmax evs (St.init t0) hev hinv).1
+  have hord := (run_stream_order L hL eps dmax evs (St.init t0) hev hinv).2
+  have hwin := window_bound_partial L hL eps dmax t0 evs hev heps (Or.inr h0) a b hab
+  have hle : ∀ o ∈ (run L (St.init t0) evs).2, o.tPre ≤ o.tRel := by
+    intro o ho
+    obtain ⟨_, _, g⟩ := good_forall L eps dmax _ _ _ hg o ho
+    have := g.pre; have := g.rel; have := g.slept_nonneg; grind
+  have hshift := winBytes_pre_le _ a b hle
+  have hfl := inflight_le (run L (St.init t0) evs).2 N dmax b hord
+    (fun o ho => by obtain ⟨e, he, hs⟩ := run_obs_stream L evs (St.init t0) o ho; rw [← hs]; exact hN e he)
+    (fun o ho => by obtain ⟨_, _, g⟩ := good_forall L eps dmax _ _ _ hg o ho; exact g.small)
   grind
 
 /-! ## the full statement is false for several threads with latency (D16) -/
